@@ -54,6 +54,9 @@ type Ev struct {
 	Rep      bool     `json:"rep"`
 	ID       int      `json:"id"`
 	Module   string   `json:"module"`
+	// Call / ModCreate, when accepted: the new context's id is the transaction hash followed by the
+	// big-endian message index the host application supplied (checked by the harness on the raw key)
+	CidOK bool `json:"cidok"`
 	State    string   `json:"state"`
 	Thr      int64    `json:"thr"`
 
@@ -120,6 +123,20 @@ func outputFor(kind string, seq uint64) (result, output string) {
 		return `{"code":200,"message":""}`, fmt.Sprintf(`{"body":{"n":%d}}`, seq)
 	}
 	return `{"code":400,"message":"no"}`, ""
+}
+
+// newContextIDMatches: the key of the context created last is hash | big-endian(index), with the
+// hash and index the harness supplied (its own encoding, not the module's id functions)
+func (c *Chain) newContextIDMatches() bool {
+	id := c.CtxBytes[c.NCtx]
+	if len(id) != 40 || string(id[:32]) != string(c.LastTxHash) {
+		return false
+	}
+	var idx int64
+	for _, b := range id[32:] {
+		idx = idx<<8 | int64(b)
+	}
+	return idx == c.LastMsgIndex
 }
 
 func ctxState(s string) types.RequestContextState {
@@ -245,6 +262,7 @@ func (c *Chain) Apply(e *Ev) bool {
 			coinsOf(e.CapShape, e.Cap), e.Timeout, e.Super, e.Rep, freq, e.Total))
 		if out.OK {
 			e.ID = c.NCtx
+			e.CidOK = c.newContextIDMatches()
 		}
 	case "ModCreate":
 		if err := types.ValidateRequest(e.Svc, coinsOf(e.CapShape, e.Cap), c.addrs(e.Provs), e.Input,
@@ -259,6 +277,7 @@ func (c *Chain) Apply(e *Ev) bool {
 		})
 		if out.OK {
 			e.ID = c.NCtx
+			e.CidOK = c.newContextIDMatches()
 		}
 	case "Pause":
 		out = c.Deliver(types.NewMsgPauseRequestContext(c.CtxID(e.ID), c.A(e.Signer)))
